@@ -120,6 +120,21 @@ end
 /-! ### defaults -/
 
 mutual
+/-- every `default`, at every depth, is valid for the schema that carries it — what
+`Schema.Resolve(ValidateDefaults: true)` checks when a tool is registered -/
+def defaultsValid : Schema → Bool
+  | .mk c ps ap items =>
+    (match c.dflt with | some d => valid (.mk c ps ap items) d | none => true) &&
+    defaultsValidProps ps && defaultsValidOpt ap && defaultsValidOpt items
+def defaultsValidProps : Props → Bool
+  | [] => true
+  | (_, s) :: t => defaultsValid s && defaultsValidProps t
+def defaultsValidOpt : Option Schema → Bool
+  | none => true
+  | some s => defaultsValid s
+end
+
+mutual
 /-- `schemaHasDefaultsInProperties`: a default on the node or anywhere below `properties`. -/
 def hasDefaults : Schema → Bool
   | .mk c ps _ _ => c.dflt.isSome || hasDefaultsProps ps
